@@ -4,6 +4,7 @@ import (
 	"fmt"
 	"runtime"
 	"sort"
+	"time"
 
 	"verifharness/core"
 )
@@ -42,4 +43,26 @@ func setMaxProcs(n int) int {
 		n = runtime.NumCPU()
 	}
 	return runtime.GOMAXPROCS(n)
+}
+
+// guarded runs f under a generous wall-clock hang guard (60 s, then a second attempt with 180 s; the guarded
+// cases normally take milliseconds). ok == false means f never returned on either attempt: the caller reports
+// a hang. Hung goroutines are leaked and may keep spinning; after 3 hangs callers stop early (core.Hangs()).
+func guarded[R any](f func() R) (r R, ok bool) {
+	for _, d := range []time.Duration{60 * time.Second, 180 * time.Second} {
+		ch := make(chan R, 1)
+		go func() { ch <- f() }()
+		select {
+		case r = <-ch:
+			return r, true
+		case <-time.After(d):
+		}
+	}
+	core.NoteHang()
+	return r, false
+}
+
+type kd struct {
+	k, d string
+	ok   bool
 }
